@@ -341,9 +341,7 @@ package stanza
 //@   assigns *x, depth(d), openNames(d), remaining(d)
 //@   emits TokenRead, DecodedElement, DecodeFailed
 //@   loop 1:
-//@     invariant [C02.consume.node] depth(d) == old(depth(d))
-//@     invariant [C02.consume.node] openNames(d)[depth(d)] == start.Name
-//@     invariant [C02.consume.node] lowerNamesKept(d)
+//@     invariant 0 <= $i && $i <= len(start.Attr)
+//@     invariant [C02.consume.node] depth(d) == old(depth(d)) && openNames(d) == old(openNames(d))
 //@     invariant [C02.total.node] count(DecodeFailed) == old(count(DecodeFailed))
-//@     invariant remaining(d) >= 0
-//@     decreases remaining(d)
+//@     decreases len(start.Attr) - $i
